@@ -244,6 +244,6 @@ func VerifC12ResultRange(rr RequestResult) LogRange { return rr.logRange }
 // only used to replay that interleaving.
 func (v *VerifC12) BorrowCommitted(clientID, seriesID, key uint64) *RequestState {
 	p := v.pp.shards[key%v.pp.ps]
-	return p.borrowProposal(clientID, seriesID, key, p.getTick())
+	return p.takeProposal(clientID, seriesID, key, p.getTick(), false)
 }
 func VerifC12NotifyCommitted(r *RequestState) { r.committed() }
